@@ -1,6 +1,7 @@
 from abc import abstractmethod
 
 from sqllineage.core.models import Column, Table
+from sqllineage.utils.verif import emit as _verif_emit
 
 
 class MetaDataProvider:
@@ -45,10 +46,12 @@ class MetaDataProvider:
 
     def register_session_metadata(self, table: Table, columns: list[Column]) -> None:
         """Register session-level metadata, like temporary table or view created."""
+        _verif_emit("session.register", provider=self, table=table, columns=columns)
         self._session_metadata[str(table)] = [c.raw_name for c in columns]
 
     def deregister_session_metadata(self) -> None:
         """Deregister session-level metadata."""
+        _verif_emit("session.deregister", provider=self)
         self._session_metadata.clear()
 
     def session(self):
